@@ -6,7 +6,7 @@ of every name in force and a category probe.  The oracle is the reference
 expander (save stack); the generator only has to keep the program valid."""
 from .conds import alpha
 
-SCOPES = ['{', '{', 'begingroup', 'center', 'quote', 'itemize', 'math', 'mathparen', 'tabular', 'textbf', 'mbox', 'emph']
+SCOPES = ['{', '{', 'begingroup', 'center', 'quote', 'itemize', 'math', 'mathparen', 'tabular', 'textbf', 'mbox', 'emph', 'unknownenv']
 
 
 class ScopeGen(object):
@@ -108,7 +108,7 @@ class ScopeGen(object):
         r = self.r
         kinds = SCOPES
         if in_math:
-            kinds = ['{', 'begingroup']
+            kinds = ['{', 'begingroup', 'unknownenv']
         kind = r.choice(kinds)
         self.nscopes += 1
         self.kinds.add(kind)
@@ -119,6 +119,10 @@ class ScopeGen(object):
             s = '{' + self.block(depth, in_math) + '}'
         elif kind == 'begingroup':
             s = '\\begingroup ' + self.block(depth, in_math) + '\\endgroup '
+        elif kind == 'unknownenv':
+            # an environment no package defines (plasTeX tolerates it and treats it as a group), in text and in mathematics
+            nm = r.choice(['zqunk', 'zqunk', 'zqother'])
+            s = '\\begin{%s}' % nm + self.block(depth, in_math) + '\\end{%s}' % nm
         elif kind in ('center', 'quote'):
             s = '\\begin{%s}' % kind + self.block(depth) + '\\end{%s}' % kind
         elif kind == 'itemize':
